@@ -208,6 +208,41 @@ fn eval(name: &str, a: &[Value]) -> Value {
             }
         }
         "execute_all" => crate::exec::execute_all(&a[0]),
+        // {"expectations": n, "items": [{"kind":"U","index":i} | {"kind":"M","index":i,"line":j,"multiline":b} | {"kind":"X","line":j}],
+        //  "absolute": bool, "line_number": usize}: render a MalformedOutput outcome with the real pretty renderer
+        "pretty_render" => {
+            use scrut::renderers::renderer::Renderer;
+            let w = &a[0];
+            let n = w["expectations"].as_u64().unwrap_or(1) as usize;
+            let maker = scrut::expectation::ExpectationMaker::new(scrut::rules::registry::RuleRegistry::default());
+            let exps: Vec<_> = (0..n).map(|i| maker.parse(&format!("e{} (?)", i)).unwrap()).collect();
+            let mut lines = vec![];
+            for it in w["items"].as_array().unwrap() {
+                let idx = it["index"].as_u64().unwrap_or(0) as usize;
+                let ln = it["line"].as_u64().unwrap_or(0) as usize;
+                match it["kind"].as_str().unwrap() {
+                    "U" => lines.push(scrut::diff::DiffLine::UnmatchedExpectation { index: idx, expectation: exps[idx.min(n - 1)].clone() }),
+                    "M" => {
+                        let mut e = exps[idx.min(n - 1)].clone();
+                        e.multiline = it["multiline"].as_bool().unwrap_or(false);
+                        lines.push(scrut::diff::DiffLine::MatchedExpectation { index: idx, expectation: e, lines: vec![(ln, b"x\n".to_vec())] })
+                    }
+                    _ => lines.push(scrut::diff::DiffLine::UnexpectedLines { lines: vec![(ln, b"x\n".to_vec())] }),
+                }
+            }
+            let diff = scrut::diff::Diff::new(lines);
+            let testcase = scrut::testcase::TestCase { title: "t".into(), shell_expression: "x".into(), expectations: exps, exit_code: None,
+                line_number: w["line_number"].as_u64().unwrap_or(1) as usize, config: scrut::config::TestCaseConfig::empty() };
+            let outcome = scrut::outcome::Outcome { location: None, output: ("", "", Some(0)).into(), testcase,
+                format: scrut::parsers::parser::ParserType::Markdown, escaping: scrut::escaping::Escaper::Unicode,
+                result: Err(scrut::testcase::TestCaseError::MalformedOutput(diff)) };
+            let renderer = scrut::renderers::pretty::PrettyMonochromeRenderer::new(scrut::renderers::pretty::PrettyColorRenderer {
+                max_surrounding_lines: 5, absolute_line_numbers: w["absolute"].as_bool().unwrap_or(false), summarize: true });
+            match renderer.render(&[&outcome]) {
+                Ok(s) => json!({"Ok": s.len()}),
+                Err(e) => json!({"Err": e.to_string()}),
+            }
+        }
         // run one shell expression through the real BashRunner (fresh state directory): {"stdout": bytes, "status": str}
         "bash_run" => {
             use scrut::executors::runner::Runner;
